@@ -11,6 +11,8 @@ Axes1 == UNION {InjSeqs(U, n) : n \in 1..Cardinality(U)}
 AxesB == UNION {InjSeqs(U \cup {3}, n) : n \in 1..3}
 XM == IF Full THEN Axes1 ELSE {<<2, 4>>, <<4, 2>>, <<4, 6>>, <<6, 2, 4>>, <<2>>}
 YM == {<<2, 4, 6>>, <<6, 2>>}
+\* longer axes: the same label set stored in several orders, among them permutations that keep the first and the last label in place
+LongAxes == {<<2, 6, 4, 8>>, <<2, 4, 6, 8>>, <<8, 4, 6, 2>>, <<2, 6, 8>>, <<2, 10, 6, 4, 12>>, <<2, 4, 6, 10, 12>>}
 Mk2(dims, xl, yl, base) == Fresh(dims, [i \in 1..Len(dims) |-> "i"],
                                  [i \in 1..Len(dims) |-> IF dims[i] = "x" THEN xl ELSE IF dims[i] = "y" THEN yl ELSE <<4, 2>>],
                                  [i \in 1..Len(dims) |-> i], "i", base \div 100, base)
@@ -22,6 +24,9 @@ Init == in = <<>> /\ out = <<>> /\ ph = 0
 Choose ==
   /\ ph = 0 /\ ph' = 1 /\ out' = out
   /\ \/ \E La \in Axes1 : \E Lb \in AxesB : in' = [fam |-> "1d", a |-> Mk2(<<"x">>, La, <<>>, 100), b |-> Mk2(<<"x">>, Lb, <<>>, 0)]
+     \/ \E La, Lb \in LongAxes : in' = [fam |-> "1d", a |-> Mk2(<<"x">>, La, <<>>, 100), b |-> Mk2(<<"x">>, Lb, <<>>, 0)]
+     \/ \E cfg \in {<< <<"x", "y">>, <<"x">> >>, << <<"x", "y">>, <<"y", "x">> >>, << <<"y">>, <<"x", "y">> >>} : \E xa, xb \in LongAxes : \E ya \in YM :
+          in' = [fam |-> "nd", a |-> Mk2(cfg[1], xa, ya, 100), b |-> Mk2(cfg[2], xb, ya, 0)]
      \/ \E cfg \in DimConfigs : \E xa, xb \in XM : \E ya, yb \in YM :
           in' = [fam |-> "nd", a |-> Mk2(cfg[1], xa, ya, 100), b |-> Mk2(cfg[2], xb, yb, 0)]
 Apply ==
